@@ -254,8 +254,8 @@ var rec = ev.New(prop, "decorated-documents",
 		"non-trivial = has comments, or a string with an escaped quote, or a comment marker/apostrophe inside a string").
 	Require("comments", "escaped-quote", "marker-in-string", "eof-line-comment", "segmented")
 
-func TestDecorated(t *testing.T) {
-	ev.Rapid(t, "decorated-documents", 4000, 8000000, func(t *rapid.T) {
+func genCase(t *rapid.T) Case {
+	{
 		c := Case{Val: genVal(t, 0), Mode: rapid.IntRange(0, 1).Draw(t, "mode")}
 		nt := len(jsonref.Tokens(c.Val, c.Mode))
 		if nt <= 200 {
@@ -292,6 +292,18 @@ func TestDecorated(t *testing.T) {
 				c.SegKind = 2
 			}
 		}
+		return c
+	}
+}
+
+// TestSideBySide: independent readers over different documents on several goroutines at once.
+func TestSideBySide(t *testing.T) {
+	ev.Parallel(t, prop, "side-by-side", 4, 300, 100, genCase, func(c Case) error { _, e := runCase(c); return e })
+}
+
+func TestDecorated(t *testing.T) {
+	ev.Rapid(t, "decorated-documents", 4000, 8000000, func(t *rapid.T) {
+		c := genCase(t)
 		var st stats
 		err := ev.Try(func() error {
 			var e error
@@ -326,14 +338,15 @@ func TestDecorated(t *testing.T) {
 }
 
 func replayers() map[string]ev.Replayer {
-	return map[string]ev.Replayer{"decorated-documents": func(raw stdjson.RawMessage) error {
+	f := func(raw stdjson.RawMessage) error {
 		var c Case
 		if err := stdjson.Unmarshal(raw, &c); err != nil {
 			return err
 		}
 		_, e := runCase(c)
 		return e
-	}}
+	}
+	return map[string]ev.Replayer{"decorated-documents": f, "side-by-side": f}
 }
 
 func TestRegress(t *testing.T) { ev.Regress(t, prop, replayers()) }
